@@ -59,6 +59,20 @@ package authgrants
 // malformed one is not judged request by request (the statement is silent; the
 // project's principal hangs up) - only the count: at no time has the delegate
 // read more answers than the number of messages it has completely written.
+//
+// THE REAL GRANT STORE: in the real-target variant an addAuthGrant that does not fail
+// hands the intent to a real AuthgrantMapSync and returns nil (what
+// hopserver.HopServer.AddAuthGrant does behind its configuration checks). After the
+// history the store is drained as a server does when the delegate turns up
+// (RemoveAuthgrants(user, delegate key)): every confirmation the delegate read must be
+// answered for by one grant that came out of the store and equals the request in type,
+// validity window, delegate certificate and associated data ("... a confirmation only if
+// the target accepted AND STORED the grant"). The statement sets no condition on the
+// window, so the generator draws it in either order, and on purpose empty or inverted
+// with both ends in the future (a target only refuses an expiry in the past).
+//
+// CONCURRENT INSTANCES (TestVerifC06ConcurrentInstances, see the end of the file): 2..4
+// such histories, one principal instance each, at the same time in one process.
 
 import (
 	"bytes"
@@ -610,6 +624,28 @@ type c06World struct {
 	wg           sync.WaitGroup
 	panicSig     string
 	panicMsg     string
+	// real-target variant: the REAL grant store (the map a hop server keeps its grants in) behind the addAuthGrant function
+	store *AuthgrantMapSync
+	// concurrent instances only: every Write of the code under test takes a keyed 0..holdMax virtual nanoseconds before its bytes are taken
+	holdSeed uint64
+	holdMax  int
+	nhold    uint64
+}
+
+// hold: a Write on a connection may take its time before the bytes are taken (a congested tube); until it returns the
+// caller's slice belongs to the connection. Only used when several principal instances run at the same time (holdMax > 0):
+// the other instances of the process run while this Write is pending.
+func (w *c06World) hold() {
+	if w.holdMax <= 0 {
+		return
+	}
+	w.mu.Lock()
+	n := w.nhold
+	w.nhold++
+	w.mu.Unlock()
+	if d := int(vlib.Fill(w.holdSeed+n, 1)[0]) % (w.holdMax + 1); d > 0 {
+		time.Sleep(time.Duration(d))
+	}
 }
 
 // c06Span: the bytes of a target connection up to offset end (exclusive) were written while request req was in flight.
@@ -634,6 +670,14 @@ func (w *c06World) reqOfByte(idx int, off int64) int {
 type c06CountConn struct {
 	net.Conn
 	n atomic.Int64
+	w *c06World // not nil: Writes (of the real target instance) may be held, see hold
+}
+
+func (c *c06CountConn) Write(p []byte) (int, error) {
+	if c.w != nil {
+		c.w.hold()
+	}
+	return c.Conn.Write(p)
 }
 
 func (c *c06CountConn) Read(p []byte) (int, error) {
@@ -694,6 +738,7 @@ func (c *c06DelegateSide) Write(b []byte) (int, error) {
 	c.w.mu.Lock()
 	c.w.pWrote = true
 	c.w.mu.Unlock()
+	c.w.hold()
 	return c.Conn.Write(b)
 }
 
@@ -746,6 +791,7 @@ type c06RecConn struct {
 
 func (c *c06RecConn) Write(b []byte) (int, error) {
 	w := c.w
+	w.hold() // the bytes are taken (and recorded) when the connection gets round to them
 	w.mu.Lock()
 	var end int64
 	if sp := w.spans[c.idx]; len(sp) > 0 {
@@ -875,7 +921,7 @@ func (w *c06World) scriptedTarget(idx int, conn net.Conn) {
 
 func (w *c06World) realTarget(idx int, conn net.Conn) {
 	defer w.wg.Done()
-	c := &c06CountConn{Conn: conn}
+	c := &c06CountConn{Conn: conn, w: w}
 	pcert := &certs.Certificate{Version: 1, Type: certs.Leaf}
 	k := 0 // the request whose intent communication the instance is working on
 	ci := func(i Intent, _ *certs.Certificate) error {
@@ -899,10 +945,68 @@ func (w *c06World) realTarget(idx int, conn net.Conn) {
 		if !ok {
 			return errors.New(c06Reason("cannot store grant", c06Clamp(r.TLen, 0, 255)))
 		}
+		// as hopserver.HopServer.AddAuthGrant (the addAuthGrant function of every target instance a hop server starts) does
+		// once its configuration checks have passed: hand the intent to the server's grant map and report success
+		w.store.AddAuthGrant(i, PrincipalID(0))
 		return nil
 	}
 	w.guard("StartTargetInstance", func() { StartTargetInstance(c, pcert, ci, add) })
 	c.Close()
+}
+
+// drainStore empties the real grant store after the history the way a hop server does when the delegate turns up
+// (hopserver.AuthorizeKeyAuthGrant: RemoveAuthgrants(user, delegate key)) - for every (user, delegate key) named by a
+// request of the case - and records what comes out as "stored" events (Req -1; Note = user and key they were found under).
+func (w *c06World) drainStore() {
+	if w.store == nil {
+		return
+	}
+	seen := map[string]bool{}
+	for k := range w.c.Reqs {
+		sent := w.c.wire(k)
+		if len(sent.Cert) < 52 {
+			continue
+		}
+		var key [32]byte
+		copy(key[:], sent.Cert[20:52])
+		id := c06StoreID(sent)
+		if seen[id] {
+			continue
+		}
+		seen[id] = true
+		var ags []Authgrant
+		w.guard("RemoveAuthgrants", func() { ags, _ = w.store.RemoveAuthgrants(sent.User, key) })
+		for _, ag := range ags {
+			w.logAt(-1, c06Ev{Kind: "stored", Note: id, W: c06FromIntent(Intent{GrantType: ag.GrantType, StartTime: ag.StartTime, ExpTime: ag.ExpTime,
+				TargetUsername: sent.User, DelegateCert: ag.DelegateCert, AssociatedData: ag.AssociatedData})})
+		}
+	}
+}
+
+// c06StoreID: what a grant for this intent is filed under in the store (user and delegate key).
+func c06StoreID(in c06Wire) string {
+	if len(in.Cert) < 52 {
+		return ""
+	}
+	return in.User + "\x00" + string(in.Cert[20:52])
+}
+
+// c06GrantDiff names the first field a stored grant carries (type, validity window, delegate certificate, associated
+// data; it is filed under user and delegate key) in which the grant differs from an intent ("" if none).
+func c06GrantDiff(g, in c06Wire) string {
+	switch {
+	case g.GT != in.GT:
+		return "GrantType"
+	case g.Start != in.Start:
+		return "StartTime"
+	case g.Exp != in.Exp:
+		return "ExpTime"
+	case !bytes.Equal(g.Cert, in.Cert):
+		return "DelegateCert"
+	case in.GT == 2 && g.Cmd != in.Cmd:
+		return "AssociatedData.Cmd"
+	}
+	return ""
 }
 
 // readAnswers parses what arrives on the delegate connection until the
@@ -1052,6 +1156,31 @@ func c06Judge(c c06Case, evs []c06Ev, v *vlib.Verdict) {
 		}
 	}
 	firstBad := c.firstBad()
+	// real-target variant: what the drain of the real grant store handed out (each stored grant answers for one confirmation)
+	var stored []c06Ev
+	for _, e := range evs {
+		if e.Kind == "stored" {
+			stored = append(stored, e)
+		}
+	}
+	storedUsed := make([]bool, len(stored))
+	storedFor := map[int]int{} // confirmed request -> the stored grant that answers for it (-1: none)
+	for _, e := range evs {
+		if e.Kind != "answer" || !e.OK || e.Req < 0 || e.Req >= n || e.Req >= firstBad {
+			continue
+		}
+		if _, ok := storedFor[e.Req]; ok {
+			continue
+		}
+		storedFor[e.Req] = -1
+		sent := c.wire(e.Req)
+		for i, g := range stored {
+			if !storedUsed[i] && g.Note == c06StoreID(sent) && c06GrantDiff(g.W, sent) == "" {
+				storedUsed[i], storedFor[e.Req] = true, i
+				break
+			}
+		}
+	}
 	for k := 0; k <= n && k <= firstBad; k++ {
 		var win []c06Ev
 		for _, e := range evs {
@@ -1251,6 +1380,32 @@ func c06Judge(c c06Case, evs []c06Ev, v *vlib.Verdict) {
 		if a.OK && (refused || !asked) {
 			v.Failf("C06:confirmed-without-approval:"+class, "request %d (%s, %s): the delegate was told 'confirmed' for a request the callback did not accept", k, class, path)
 			return
+		}
+		// ---- (iv), real target with the real grant store: "... only if the target accepted AND STORED the grant" - a
+		// grant for this intent (type, window, delegate certificate, associated data, filed under its user and delegate key)
+		// must come out of the store when the delegate turns up; one stored grant answers for one confirmation
+		if a.OK && c.Real {
+			window := "ordinary-window"
+			switch {
+			case sent.Start == sent.Exp:
+				window = "empty-window"
+			case sent.Start > sent.Exp:
+				window = "inverted-window"
+			}
+			if i, ok := storedFor[k]; !ok || i < 0 {
+				// a grant filed under this user and key that answers for no confirmed request: stored, but not as confirmed
+				what := "absent"
+				for i, g := range stored {
+					if !storedUsed[i] && g.Note == c06StoreID(sent) {
+						what = "differs:" + c06GrantDiff(g.W, sent)
+						break
+					}
+				}
+				v.Failf("C06:confirmed-but-grant-not-in-store:"+what, "request %d (%s, %s, %s: start %d, expiry %d): the delegate was told 'confirmed' (the target's addAuthGrant returned nil), but draining the target's grant store for this user and delegate key does not yield a grant for this intent (%d grants came out of the store in all)",
+					k, class, path, window, sent.Start, sent.Exp, len(stored))
+				return
+			}
+			v.Label("store:confirmed-grant-found:" + window)
 		}
 		v.Label("answer:" + a.Note)
 		v.Label("class:" + class + ":" + path)
@@ -1516,6 +1671,14 @@ func c06Classify(c c06Case, evs []c06Ev, v *vlib.Verdict) {
 		if k > 0 && c06Diff(w, c.wire(k-1)) == "" {
 			once("repeated-identical-intent")
 		}
+		switch {
+		case w.Start == w.Exp && w.Start > c06BubbleEpoch+3600:
+			once("window:empty-in-the-future")
+		case w.Start > w.Exp && w.Exp > c06BubbleEpoch+3600:
+			once("window:inverted-in-the-future")
+		case w.Start >= w.Exp:
+			once("window:empty-or-inverted-other")
+		}
 		if k > 0 && c.Reqs[k].Tgt != c.Reqs[k-1].Tgt && len(c.Tgts) > 1 {
 			once("target-changes")
 		}
@@ -1566,6 +1729,9 @@ func c06RunWith(t *testing.T, c c06Case, v *vlib.Verdict) {
 		return
 	}
 	w := &c06World{c: c, spans: map[int][]c06Span{}}
+	if c.Real {
+		w.store = NewAuthgrantMapSync()
+	}
 	done := make(chan string, 1)
 	go func() {
 		var res string
@@ -1589,6 +1755,7 @@ func c06RunWith(t *testing.T, c c06Case, v *vlib.Verdict) {
 		fmt.Fprintf(os.Stderr, "VERIF-MACHINERY C06: bubble hung in real time\n%s\n", c06AllStacks())
 		os.Exit(3)
 	}
+	w.drainStore()
 	w.mu.Lock()
 	evs := append([]c06Ev(nil), w.evs...)
 	psig, pmsg := w.panicSig, w.panicMsg
@@ -1622,6 +1789,17 @@ func c06DrawTime(t *rapid.T, label string) int64 {
 		return rapid.SampledFrom(c06Times).Draw(t, label)
 	}
 	return rapid.Int64Range(0, 1<<63-1).Draw(t, label+"-any")
+}
+
+// c06BubbleEpoch: the virtual clock of a synctest bubble starts at 2000-01-01 00:00:00 UTC.
+const c06BubbleEpoch = 946684800
+
+// c06DrawFuture draws a time after everything the virtual clock of a case reaches.
+func c06DrawFuture(t *rapid.T, label string) int64 {
+	if rapid.Bool().Draw(t, label+"-edge") {
+		return rapid.SampledFrom([]int64{c06BubbleEpoch + 86400, 1 << 31, 1 << 32, 1700000000, 1800000000, 1<<62 + 12345, 1<<63 - 86401}).Draw(t, label)
+	}
+	return rapid.Int64Range(c06BubbleEpoch+86400, 1<<63-86401).Draw(t, label+"-any")
 }
 
 func c06Gen(t *rapid.T) c06Case {
@@ -1693,6 +1871,25 @@ func c06Gen(t *rapid.T) c06Case {
 		}
 		r.Start = c06DrawTime(t, "start")
 		r.Exp = c06DrawTime(t, "exp")
+		// the validity window: as drawn (any order), or on purpose empty / inverted with both ends in the future (a target
+		// only refuses an expiry in the past), or the one the project's own delegate asks for (now .. now + 1 min)
+		switch rapid.IntRange(0, 9).Draw(t, "window") {
+		case 0:
+			r.Start = c06DrawFuture(t, "window-at")
+			r.Exp = r.Start
+		case 1:
+			r.Exp = c06DrawFuture(t, "window-exp")
+			r.Start = r.Exp + rapid.SampledFrom([]int64{1, 1, 60, 86400}).Draw(t, "window-by")
+		case 2:
+			a, b := c06DrawFuture(t, "window-a"), c06DrawFuture(t, "window-b")
+			if a < b {
+				a, b = b, a
+			}
+			r.Start, r.Exp = a, b
+		case 3:
+			r.Start = c06BubbleEpoch + rapid.Int64Range(0, 600).Draw(t, "window-now")
+			r.Exp = r.Start + 60
+		}
 		if r.GT == 2 {
 			r.CmdSeed = rapid.Uint64Range(0, 1<<20).Draw(t, "cmdseed")
 			r.CmdLen = c06DrawLen(t, "cmdlen", 255)
@@ -1797,4 +1994,167 @@ func TestVerifC06Histories(t *testing.T) {
 	c06SelfTest(t)
 	vlib.Drive(t, vlib.Spec[c06Case]{ID: "C06", Quick: 120000, Gen: c06Gen,
 		Run: func(c c06Case, v *vlib.Verdict) { c06RunWith(t, c, v) }})
+}
+
+// ---------------------------------------------------------------------------
+// several principal instances at the same time
+//
+// A principal process serves every delegate connection with an instance of its own, all at the same time
+// (hopclient.HandleTubes starts one goroutine per authorization-grant tube). The statement is about each delegate
+// connection: whatever the other instances of the process are doing, an instance forwards what ITS callback approved
+// for ITS request and relays what ITS target answered. 2..4 complete histories (each with its own delegate connection,
+// callback, setup function and targets) run in one bubble; they are released together by the virtual clock (instances
+// with the same start offset run in parallel on real threads, the others a few virtual nanoseconds apart), and every
+// Write the code under test issues on a connection may be HELD for a keyed 0..HoldMax virtual nanoseconds before the
+// connection takes the bytes (a Write may block for as long as it likes; until it returns the slice is the caller's
+// promise) - so the writes of one instance are pending while the others read, decide, serialise and write. Each instance
+// is then judged on its own by the oracle of the single-connection histories.
+
+type c06Inst struct {
+	Case     c06Case `json:"case"`
+	StartNs  int     `json:"start,omitempty"` // virtual nanoseconds after the common release at which this instance's delegate begins
+	HoldSeed uint64  `json:"hseed,omitempty"`
+	HoldMax  int     `json:"hmax,omitempty"` // every Write of this instance's principal / real target is held keyed 0..HoldMax virtual ns (0: never)
+}
+
+type c06ConcCase struct {
+	Insts []c06Inst `json:"insts"`
+}
+
+func c06ConcRun(t *testing.T, cc c06ConcCase, v *vlib.Verdict) {
+	if len(cc.Insts) < 2 || len(cc.Insts) > 4 {
+		v.Discard = true
+		return
+	}
+	var worlds []*c06World
+	for _, in := range cc.Insts {
+		if len(in.Case.Reqs) == 0 || len(in.Case.Reqs) > 6 {
+			v.Discard = true
+			return
+		}
+		w := &c06World{c: in.Case, spans: map[int][]c06Span{}, holdSeed: in.HoldSeed, holdMax: c06Clamp(in.HoldMax, 0, 100)}
+		if in.Case.Real {
+			w.store = NewAuthgrantMapSync()
+		}
+		worlds = append(worlds, w)
+	}
+	done := make(chan string, 1)
+	go func() {
+		var res string
+		defer func() {
+			if r := recover(); r != nil {
+				res = fmt.Sprint(r)
+			}
+			done <- res
+		}()
+		synctest.Test(t, func(*testing.T) {
+			var wg sync.WaitGroup
+			for i, w := range worlds {
+				wg.Add(1)
+				go func(w *c06World, start int) {
+					defer wg.Done()
+					time.Sleep(time.Duration(1 + c06Clamp(start, 0, 1000))) // the clock releases the instances: together, or a few ns apart
+					w.scenario()
+				}(w, cc.Insts[i].StartNs)
+			}
+			wg.Wait()
+		})
+	}()
+	tm := time.NewTimer(120 * time.Second) // real-time watchdog
+	defer tm.Stop()
+	select {
+	case res := <-done:
+		if res != "" {
+			v.Inconclusive = "bubble ended abnormally: " + res
+			return
+		}
+	case <-tm.C:
+		fmt.Fprintf(os.Stderr, "VERIF-MACHINERY C06: bubble hung in real time\n%s\n", c06AllStacks())
+		os.Exit(3)
+	}
+	forwarded, held, sameStart := 0, false, false
+	var keys []string
+	for i, w := range worlds {
+		w.drainStore()
+		w.mu.Lock()
+		evs := append([]c06Ev(nil), w.evs...)
+		psig, pmsg := w.panicSig, w.panicMsg
+		w.mu.Unlock()
+		var sub vlib.Verdict
+		c06Classify(w.c, evs, &sub)
+		if psig != "" {
+			sub.Failf(psig, "%s", pmsg)
+		} else {
+			c06Judge(w.c, evs, &sub)
+		}
+		for _, l := range sub.Labels {
+			if strings.HasPrefix(l, "class:") || strings.HasPrefix(l, "answer:") || strings.HasPrefix(l, "variant:") || strings.HasPrefix(l, "store:") {
+				v.Label(l)
+			}
+		}
+		keys = append(keys, sub.Key)
+		if len(sub.Violations) > 0 {
+			x := sub.Violations[0]
+			v.Failf(x.Sig+":concurrent-instances", "instance %d of %d principal instances running at the same time (start offsets and write holds: %s): %s", i, len(worlds), c06ConcShape(cc), x.Detail)
+			return
+		}
+		for _, e := range evs {
+			if e.Kind == "twrite" {
+				forwarded++
+				break
+			}
+		}
+		if w.holdMax > 0 {
+			held = true
+		}
+		for j := 0; j < i; j++ {
+			if cc.Insts[j].StartNs == cc.Insts[i].StartNs {
+				sameStart = true
+			}
+		}
+	}
+	v.Labelf("instances=%d", len(worlds))
+	v.Labelf("instances-that-forwarded=%d", forwarded)
+	if held {
+		v.Label("writes-held")
+	}
+	if sameStart {
+		v.Label("instances-with-the-same-start")
+	}
+	v.NonTrivial = forwarded >= 2
+	v.Key = fmt.Sprintf("%s|%s", c06ConcShape(cc), strings.Join(keys, "||"))
+}
+
+func c06ConcShape(cc c06ConcCase) string {
+	var p []string
+	for _, in := range cc.Insts {
+		p = append(p, fmt.Sprintf("+%dns/hold<=%dns", in.StartNs, in.HoldMax))
+	}
+	return strings.Join(p, " ")
+}
+
+func c06ConcGen(t *rapid.T) c06ConcCase {
+	var cc c06ConcCase
+	n := rapid.IntRange(2, 4).Draw(t, "instances")
+	for i := 0; i < n; i++ {
+		cc.Insts = append(cc.Insts, c06Inst{
+			Case:     c06Gen(t),
+			StartNs:  rapid.SampledFrom([]int{0, 0, 0, 1, 2, 3, 5, 9}).Draw(t, "start-offset"),
+			HoldSeed: rapid.Uint64Range(0, 1<<20).Draw(t, "hold-seed"),
+			HoldMax:  rapid.SampledFrom([]int{0, 1, 3, 3, 8, 8, 20}).Draw(t, "hold-max"),
+		})
+	}
+	return cc
+}
+
+func TestVerifC06ConcurrentInstances(t *testing.T) {
+	logrus.SetOutput(io.Discard)
+	logrus.SetLevel(logrus.PanicLevel)
+	c06SelfTest(t)
+	quick := 12000
+	if c06Race {
+		quick = 1600
+	}
+	vlib.Drive(t, vlib.Spec[c06ConcCase]{ID: "C06", Quick: quick, Gen: c06ConcGen,
+		Run: func(c c06ConcCase, v *vlib.Verdict) { c06ConcRun(t, c, v) }})
 }
